@@ -62,6 +62,11 @@ EXTRA_TRUSTED = [
     "the assignments of a history run through the real class __setattr__; the model is given the value "
     "the field holds afterwards (hooks are C05/C06's subject)",
 ]
+EXTRA_TRUSTED += [
+    "tie by translation: harness/translate_c12.py (Python ast of evolve / assoc -> Gallina over the combinators of "
+    "coq/theories/C12/TieLib.v) and the meaning TieLib.v gives to the Python constructs of its subset (getattr, "
+    "object.__setattr__, dict store/membership, for loops, copy.copy = the model's shallow_copy, cls(**kw) = run_init)",
+]
 ASSUMPTIONS = [
     "no two init fields share an alias (K8); getstate_setstate left at its default; eq/hash per field left "
     "at their defaults, no eq_key",
@@ -70,6 +75,19 @@ ASSUMPTIONS = [
     "user callables are symbolic: they record their arguments and return a fresh term",
     "the property layer makes no claim for originals with an unset field or a stale cached hash",
 ]
+
+
+
+def pre_build():
+    # Gen/C12_Funcs.v is regenerated from the current source text (C12/Tie.v depends on it)
+    from . import translate_c12
+    translate_c12.regenerate()
+
+
+def translated_tie():
+    from . import translate_c12
+    return translate_c12.regenerate(), "theories/C12/Tie.vo"
+
 
 TUPLE_ATTRS = ["__add__", "__class__", "__class_getitem__", "__contains__", "__delattr__", "__dir__",
                "__doc__", "__eq__", "__format__", "__ge__", "__getattribute__", "__getitem__",
@@ -713,7 +731,7 @@ _dist = Counter()
 
 def generate(tier, seed):
     rng = random.Random(seed)
-    n_chains = 400 if tier == "quick" else 1800
+    n_chains = 320 if tier == "quick" else 1800
     uidc = [0]
     cases, props = [], []
     _dist.clear()
